@@ -81,6 +81,16 @@ M = [
     ("C20", "loghp-trend-of-raw", "black_it/utils/time_series.py", "return np.log(time_series) - hp_filter(np.log(time_series), lamb=1600)[1]", "return np.log(time_series) - hp_filter(np.log(time_series), lamb=1600)[0]"),
     ("C20", "difflog-prepend0", "black_it/utils/time_series.py", "diff_log = np.diff(log, prepend=log[0])", "diff_log = np.diff(log, prepend=0)"),
     ("C20", "difflog-mean-of-log", "black_it/utils/time_series.py", "return diff_log - np.mean(diff_log)", "return diff_log - np.mean(diff_log[1:])"),
+    ("C16", "clip-in-place", "black_it/samplers/xgboost.py", "        y = np.copy(y)\n", ""),
+    ("C16", "sur-highest", "black_it/samplers/surrogate.py", "sampled_points: NDArray[np.float64] = candidates[sorting_indices][:batch_size]", "sampled_points: NDArray[np.float64] = candidates[sorting_indices][-batch_size:]"),
+    ("C16", "sur-fit-subset", "black_it/samplers/surrogate.py", "        self.fit(existing_points, existing_losses)", "        self.fit(existing_points[-50:], existing_losses[-50:])"),
+    ("C16", "sur-skip-one", "black_it/samplers/surrogate.py", "candidates[sorting_indices][:batch_size]", "candidates[sorting_indices][1 : batch_size + 1] if len(candidates) == 4 else candidates[sorting_indices][:batch_size]"),
+    ("C16", "bb-any-parent", "black_it/samplers/best_batch.py", "        ][:batch_size, :]\n\n        candidate_point_indexes: NDArray[np.int64] = self.random_generator.integers(\n            0,\n            batch_size,", "        ]\n\n        candidate_point_indexes: NDArray[np.int64] = self.random_generator.integers(\n            0,\n            len(existing_points),"),
+    ("C16", "bb-size-zero", "black_it/samplers/best_batch.py", "                    1,\n                    self.perturbation_range,\n                )", "                    0,\n                    self.perturbation_range,\n                )"),
+    ("C16", "bb-range-incl", "black_it/samplers/best_batch.py", "                    1,\n                    self.perturbation_range,\n                )", "                    1,\n                    self.perturbation_range + 1,\n                )"),
+    ("C16", "pso-writes-history", "black_it/samplers/particle_swarm.py", "        previous_losses = existing_losses[batch_index_start:batch_index_stop]", "        previous_losses = existing_losses[batch_index_start:batch_index_stop]\n        existing_losses[batch_index_start:batch_index_stop] = np.sort(previous_losses)"),
+    ("C16", "cors-normalise-inplace", "black_it/samplers/cors.py", "        current_losses = existing_losses / fmax", "        existing_losses /= fmax\n        current_losses = existing_losses"),
+    ("C16", "rf-sorts-history", "black_it/samplers/random_forest.py", "        y: NDArray[np.float64] = existing_losses\n", "        y: NDArray[np.float64] = existing_losses\n        y.sort()\n"),
     ("C15", "no-tolerance", "black_it/search_space.py", "parameters_bounds[1][i] + 0.0000001,", "parameters_bounds[1][i],"),
 ]
 
